@@ -287,11 +287,11 @@ where
         (Wr::Nz, How::FromU64) => nzprim!(NonZeroU64, u64, from_u64),
         (Wr::Nz, How::FromU128) => {
             let v = (small as u128) | ((words.get(1).copied().unwrap_or(0) as u128) << 64);
-            if N < 2 && v >> 64 != 0 {
-                return Made::NoSuchApi;
-            }
+            // on a type narrower than 128 bits the conversion asserts (panics): that is a way of failing;
+            // what it must never do is hand back a wrapper (checked by the invariant, and by `stated`:
+            // a value that does not fit is an invalid argument)
             match NonZeroU128::new(v) {
-                Some(p) if N >= 2 => from_guard(guard(|| Some(S::nz(NonZero::<Uint<N>>::from_u128(p))))),
+                Some(p) => from_guard(guard(|| Some(S::nz(NonZero::<Uint<N>>::from_u128(p))))),
                 _ => Made::NoSuchApi,
             }
         }
@@ -448,8 +448,12 @@ fn stated(carrier: Carrier, wr: Wr, how: How, words: &[u64], bytes: &[u8]) -> Op
         How::FromU128 => {
             let mut v = vec![0; n];
             v[0] = words[0];
+            let hi = words.get(1).copied().unwrap_or(0);
             if n > 1 {
-                v[1] = words.get(1).copied().unwrap_or(0);
+                v[1] = hi;
+            } else if hi != 0 {
+                // the value does not fit the carrier: no valid wrapper of it exists
+                return Some((v, false));
             }
             v
         }
@@ -571,6 +575,13 @@ fn exec(plan: &Plan, out: &mut RunOut) {
                                 format!("{} of {} produced {} but the stated byte order denotes {}", pname, hex(bytes), hexw(&w.words()), hexw(val)),
                                 replay(),
                             );
+                        } else if *ok && !is_byte_order_producer(*how) && !matches!(how, How::Default) && w.words() != *val {
+                            out.viol(
+                                "C12/accepted-invalid",
+                                format!("{}:{}:value-changed", pname, w.ty()),
+                                format!("{} of {} produced the different value {}", pname, hexw(val), hexw(&w.words())),
+                                replay(),
+                            );
                         } else if !*ok {
                             if documented_panic_on_invalid(*how) {
                                 out.viol("C11/missing-panic", pname.clone(), format!("{} is documented to panic on an invalid argument but returned {}", pname, hexw(&w.words())), replay());
@@ -597,6 +608,9 @@ fn exec(plan: &Plan, out: &mut RunOut) {
                             out.viol("C12/byte-order", pname.clone(), format!("{} panicked ({}) on {} although the stated byte order denotes the valid value {}", pname, p.message, hex(bytes), hexw(val)), replay());
                         } else if !*ok && documented_panic_on_invalid(*how) {
                             out.count("expected-panic:documented-panicking-producer-on-invalid-argument");
+                        } else if *how == How::FromU128 && limbs_of(*carrier) < 2 {
+                            // `Uint::<1>::from_u128` asserts LIMBS >= 2: a misuse the type cannot express, refused by panic
+                            out.count("expected-panic:from_u128-on-a-carrier-narrower-than-128-bits");
                         } else {
                             out.viol("C11/unexpected-panic", format!("{}:{}", pname, p.location), format!("{} panicked at {}: {}", pname, p.location, p.message), replay());
                         }
@@ -1126,6 +1140,24 @@ fn gen_value(r: &mut Xoshiro, n: usize) -> Vec<u64> {
     v
 }
 
+/// Argument words for a value producer. `from_u128` always gets a 128-bit argument, also on carriers
+/// narrower than that (where the conversion must refuse it), biased towards multiples of 2^64.
+fn gen_arg(r: &mut Xoshiro, how: How, n: usize) -> Vec<u64> {
+    if how == How::FromU128 {
+        let mut v = gen_value(r, 2);
+        match r.below(4) {
+            0 => v[0] = 0,
+            1 => {
+                v[0] = 0;
+                v[1] = 1;
+            }
+            _ => {}
+        }
+        return v;
+    }
+    gen_value(r, n)
+}
+
 fn gen_bytes(r: &mut Xoshiro, n: usize) -> Vec<u8> {
     let mut b = vec![0u8; n];
     match r.below(8) {
@@ -1200,7 +1232,7 @@ impl TypedScenario for Pool {
     fn n_runs(&self, tier: Tier) -> u64 {
         match tier {
             Tier::Quick => 40_000,
-            Tier::Thorough => 2_000_000,
+            Tier::Thorough => 20_000_000,
         }
     }
     fn generate(&self, seed: u64, _tier: Tier, i: u64) -> Plan {
@@ -1217,7 +1249,7 @@ impl TypedScenario for Pool {
             let how = HOWS[k % HOWS.len()];
             let n = if carrier == Carrier::Boxed { r.range(1, 4) as usize } else { limbs_of(carrier) };
             for _ in 0..8 {
-                ops.push(Op::Produce { carrier, wr, how, words: gen_value(&mut r, n), bytes: gen_bytes(&mut r, 8 * n) });
+                ops.push(Op::Produce { carrier, wr, how, words: gen_arg(&mut r, how, n), bytes: gen_bytes(&mut r, 8 * n) });
             }
             return Plan { ops };
         }
@@ -1226,7 +1258,10 @@ impl TypedScenario for Pool {
             let wr = if r.chance(1, 2) { Wr::Nz } else { Wr::Odd };
             let n = if carrier == Carrier::Boxed { r.range(1, 4) as usize } else { limbs_of(carrier) };
             ops.push(match r.weighted(&weights) {
-                0 => Op::Produce { carrier, wr, how: *r.pick(&HOWS), words: gen_value(&mut r, n), bytes: gen_bytes(&mut r, 8 * n) },
+                0 => {
+                    let how = *r.pick(&HOWS);
+                    Op::Produce { carrier, wr, how, words: gen_arg(&mut r, how, n), bytes: gen_bytes(&mut r, 8 * n) }
+                }
                 1 => Op::Select { a: r.below(64) as usize, b: r.below(64) as usize, choice: r.chance(1, 2), form: r.below(3) as u8 },
                 2 => Op::Convert {
                     src: r.below(64) as usize,
